@@ -63,6 +63,9 @@ def run(ctx):
                 list(range(0xff01, 0xff5f)) + list(range(0xac00, 0xac40)) + list(range(0x1100, 0x1113)) + list(range(0x3300, 0x3358))]
         for _ in range(150 if thorough else 30):
             pws.append("".join(rng.choice(pool) for _ in range(rng.randrange(1, 8))))
+    for nm in (29, 30, 31, 32, 33, 64, 100):
+        marks = "".join(chr(rng.choice([0x300, 0x301, 0x323, 0x328, 0x334, 0x345, 0x5b0, 0x94d])) for _ in range(nm))
+        pws += ["p" + marks, "\u1e55" + marks, marks]
     k = 0
     for pw in pws:
         L = list(LENS)[k % 5]
